@@ -663,6 +663,13 @@ func (g *graph) compile(ctx context.Context, opt *graphCompileOptions) (*composa
 		return nil, errors.New("end node not set")
 	}
 
+	// a passthrough node that no edge or branch ever touched has no type (and no generic helper)
+	for key, node := range g.nodes {
+		if node.inputType() == nil || node.outputType() == nil {
+			return nil, fmt.Errorf("node[%s]'s input or output type cannot be inferred: it is not connected to any typed node", key)
+		}
+	}
+
 	// toValidateMap isn't empty means there are nodes that cannot infer type
 	for _, v := range g.toValidateMap {
 		if len(v) > 0 {
